@@ -442,6 +442,33 @@ func (s *Sys) Schedule(client int, pipeline string, vars map[string]interface{},
 	return id, cls
 }
 
+// ScheduleHTTP issues the schedule request through the HTTP handler (POST /pipelines/schedule with a valid token)
+func (s *Sys) ScheduleHTTP(client int, api *API, pipeline string, vars map[string]interface{}) (string, string) {
+	c := s.call(client, "schedule", pipeline, "", "http")
+	code, id, msg := api.ScheduleHTTP(pipeline, vars)
+	cls := "ok"
+	switch {
+	case code == 202:
+	case code == 503:
+		cls = "shutting-down"
+		id = ""
+	default:
+		id = ""
+		switch {
+		case strings.Contains(msg, "queueing disabled"):
+			cls = "no-queue"
+		case strings.Contains(msg, "queue limit reached"):
+			cls = "queue-full"
+		case strings.Contains(msg, "is not defined"):
+			cls = "undefined"
+		default:
+			cls = fmt.Sprintf("error:%d:%s", code, msg)
+		}
+	}
+	s.ret(client, "schedule", pipeline, id, cls, c, nil)
+	return id, cls
+}
+
 // Cancel calls CancelJob
 func (s *Sys) Cancel(client int, job string) string {
 	c := s.call(client, "cancel", "", job, "")
